@@ -450,13 +450,20 @@ def hasDup : List Bytes → Bool
   | [] => false
   | x :: r => r.contains x || hasDup r
 
-/-- `Parser.Parse`: tokenize, parse the outer template (tokens after a stray end tag are ignored,
-    as in Go), reject a second definition of a block. -/
+/-- what `parseOuter` left unread at the top level is nothing or the EOF token: a tag that closes a block
+    (`endif`, `else`, …) where no block is open is an error, not the silent end of the template -/
+def strayEnd : List Token → Bool
+  | [] => false
+  | t :: _ => t.kind != EOF
+
+/-- `Parser.Parse`: tokenize, parse the outer template, reject a stray end tag (the unchanged tree dropped
+    everything behind it without a word; repaired in /repo), reject a second definition of a block. -/
 def parseTemplate (src : Bytes) : R (List Node) :=
   match tokenize src with
   | .error _ => perr "tokenization error"
   | .ok ts => do
-    let (nodes, _) ← parseOuter (4 * ts.length + 16) ts
-    if hasDup (blockNamesL nodes) then perr "the block has already been defined" else pure nodes
+    let (nodes, rest) ← parseOuter (4 * ts.length + 16) ts
+    if strayEnd rest then perr "unexpected tag without an open block"
+    else if hasDup (blockNamesL nodes) then perr "the block has already been defined" else pure nodes
 
 end Twig
